@@ -1,12 +1,13 @@
 -------------------------- MODULE StaticMatrixModel --------------------------
 (* Ring identities of static_matrix arithmetic on all 2 x 2 integer blocks with     *)
-(* entries in VA (a, b) and VC (c).                                                 *)
+(* small entries (sets VA, VB, VC below).                                                 *)
 EXTENDS StaticMatrix, TLC
-CONSTANTS Wide                \* FALSE: a,b over {-1,0,2}, c over {-1,1};  TRUE: c over {-1,0,2} as well
+CONSTANTS Wide                \* FALSE: a over {-1,0,2}, b over {-1,2}, c over {-1,1};  TRUE: a, b, c over {-1,0,2}
 VA == {-1, 0, 2}
+VB == IF Wide THEN {-1, 0, 2} ELSE {-1, 2}
 VC == IF Wide THEN {-1, 0, 2} ELSE {-1, 1}
 VARIABLES a, b, c, pc
 Init == a \in [1..4 -> VA] /\ b = <<>> /\ c = <<>> /\ pc = "in"
-Next == pc = "in" /\ pc' = "ops" /\ b' \in [1..4 -> VA] /\ c' \in [1..4 -> VC] /\ UNCHANGED a
+Next == pc = "in" /\ pc' = "ops" /\ b' \in [1..4 -> VB] /\ c' \in [1..4 -> VC] /\ UNCHANGED a
 RingInv == pc = "ops" => RingOK(a, b, c, 3, 2) /\ RingOK(c, a, b, -2, 2)
 =============================================================================
